@@ -517,7 +517,8 @@ fn gen_history(seed: u64, index: usize) -> History {
                     // back to a healthy writer after the window (sometimes the history ends on the full disk)
                     if !r.chance(1, 6) {
                         ops.insert(end, Op::Replay { c });
-                        ops.insert(end, Op::Restart { failing: false });
+                        // ... through a restart, or while the store lives (the same writer succeeds again)
+                        ops.insert(end, if r.chance(1, 2) { Op::Restart { failing: false } } else { Op::DiskRecovers });
                     }
                     // what a late subscriber gets while the disk is full, after at least one refused write
                     ops.insert(end, Op::Replay { c });
